@@ -1,10 +1,217 @@
 package main
 
+import (
+	"go/types"
+
+	"golang.org/x/tools/go/ssa"
+)
+
 // extraObligations: obligation families that are not generated from one function body.
 func extraObligations(w *World, spec *Specs, prop string, opt solveOpts) []*extraResult {
 	var out []*extraResult
 	if prop == "C03" || prop == "" {
 		out = append(out, nondetObligations(w, spec, opt)...)
 	}
+	out = append(out, orderObligations(w, spec, prop)...)
 	return out
+}
+
+// orderObligations: for functions declared returns-sorted, every returned slice is the operand of a sort call
+// that dominates the return, with no later append to or store into that slice (dataflow on SSA). Together
+// with the contract of the comparator this is "results are in source order", modulo the semantics of sort.
+func orderObligations(w *World, spec *Specs, prop string) []*extraResult {
+	var out []*extraResult
+	for _, f := range w.funcs {
+		tags, ok := spec.returnsSorted[shortName(f)]
+		if !ok {
+			continue
+		}
+		if prop != "" {
+			has := false
+			for _, t := range tags {
+				if t == prop {
+					has = true
+				}
+			}
+			if !has {
+				continue
+			}
+		}
+		e := newEnc(w, f, spec)
+		okAll, why := returnsSortedSlice(f)
+		cond := "false"
+		if okAll {
+			cond = "true"
+		}
+		o := e.addOb(nil, "NONDET", "order", f.Pos(), "every returned slice was sorted last", cond, false)
+		o.tags = tags
+		o.trivial = true
+		if okAll {
+			o.Verdict, o.Solver = "unsat", "dataflow"
+		} else {
+			o.Verdict, o.Solver = "sat", "dataflow"
+			o.Output = why
+		}
+		out = append(out, &extraResult{enc: e, obs: []*Oblig{o}})
+	}
+	return out
+}
+
+func sliceRootOf(v ssa.Value) ssa.Value {
+	for {
+		switch x := v.(type) {
+		case *ssa.MakeInterface:
+			v = x.X
+		case *ssa.ChangeType:
+			v = x.X
+		case *ssa.Convert:
+			v = x.X
+		case *ssa.UnOp:
+			// a load of a local variable that lives in a cell (captured by the comparator closure)
+			if al, ok := x.X.(*ssa.Alloc); ok && x.Op.String() == "*" {
+				return al
+			}
+			return v
+		default:
+			return v
+		}
+	}
+}
+
+func returnsSortedSlice(f *ssa.Function) (bool, string) {
+	nret := 0
+	for _, b := range f.Blocks {
+		ret, ok := b.Instrs[len(b.Instrs)-1].(*ssa.Return)
+		if !ok {
+			continue
+		}
+		for _, rv := range ret.Results {
+			if _, isSlice := rv.Type().Underlying().(*types.Slice); !isSlice {
+				continue
+			}
+			if c, ok := rv.(*ssa.Const); ok && c.IsNil() {
+				continue
+			}
+			// an empty slice is trivially sorted
+			if emptySliceValue(rv) {
+				continue
+			}
+			if al, ok := sliceRootOf(rv).(*ssa.Alloc); ok {
+				// a variable in a cell: empty at this return if no store of a possibly non-empty value reaches it
+				nonEmptyReaches := false
+				for _, b2 := range f.Blocks {
+					for _, in := range b2.Instrs {
+						if st, ok := in.(*ssa.Store); ok && st.Addr == al && !emptySliceValue(st.Val) && instrReaches(st, ret) {
+							nonEmptyReaches = true
+						}
+					}
+				}
+				if !nonEmptyReaches {
+					continue
+				}
+			}
+			nret++
+			found := false
+			for _, b2 := range f.Blocks {
+				for _, in := range b2.Instrs {
+					c, ok := in.(*ssa.Call)
+					if !ok || isSortCall(c.Common()) == "" || len(c.Common().Args) == 0 {
+						continue
+					}
+					if sliceRootOf(c.Common().Args[0]) == sliceRootOf(rv) && instrDominates(c, ret) && !storedAfter(f, sliceRootOf(rv), c) {
+						found = true
+					}
+				}
+			}
+			if !found {
+				return false, "a returned slice is not the operand of a dominating sort call: " + rv.Name() + " at " + f.Prog.Fset.Position(ret.Pos()).String()
+			}
+		}
+	}
+	if nret == 0 {
+		return false, "no sorted slice is returned"
+	}
+	return true, ""
+}
+
+// hasElementWrites: some store goes into an element of the slice value.
+func hasElementWrites(f *ssa.Function, s ssa.Value) bool {
+	for _, b := range f.Blocks {
+		for _, in := range b.Instrs {
+			if ia, ok := in.(*ssa.IndexAddr); ok && ia.X == s {
+				return true
+			}
+		}
+	}
+	return false
+}
+
+
+// storedAfter: the cell is assigned again after the sort call (on some path the call dominates).
+func storedAfter(f *ssa.Function, root ssa.Value, sortCall *ssa.Call) bool {
+	al, ok := root.(*ssa.Alloc)
+	if !ok {
+		return false
+	}
+	for _, b := range f.Blocks {
+		for _, in := range b.Instrs {
+			if st, ok := in.(*ssa.Store); ok && st.Addr == al && instrDominates(sortCall, st) {
+				return true
+			}
+		}
+	}
+	return false
+}
+
+
+func emptySliceValue(v ssa.Value) bool {
+	switch x := v.(type) {
+	case *ssa.MakeSlice:
+		if k, ok := x.Len.(*ssa.Const); ok && k.Int64() == 0 {
+			return true
+		}
+	case *ssa.Slice:
+		// []T{}: a slice of a zero-length array
+		if al, ok := x.X.(*ssa.Alloc); ok {
+			if p, ok := al.Type().Underlying().(*types.Pointer); ok {
+				if a, ok := p.Elem().Underlying().(*types.Array); ok && a.Len() == 0 {
+					return true
+				}
+			}
+		}
+	case *ssa.Const:
+		return x.IsNil()
+	}
+	return false
+}
+
+// instrReaches: control can flow from a to b.
+func instrReaches(a, b ssa.Instruction) bool {
+	if a.Block() == b.Block() {
+		for _, in := range a.Block().Instrs {
+			if in == a {
+				return true
+			}
+			if in == b {
+				break
+			}
+		}
+	}
+	seen := map[*ssa.BasicBlock]bool{}
+	var dfs func(x *ssa.BasicBlock) bool
+	dfs = func(x *ssa.BasicBlock) bool {
+		for _, s := range x.Succs {
+			if s == b.Block() {
+				return true
+			}
+			if !seen[s] {
+				seen[s] = true
+				if dfs(s) {
+					return true
+				}
+			}
+		}
+		return false
+	}
+	return dfs(a.Block())
 }
